@@ -186,6 +186,19 @@ func newWorld(r *lib.Run, spec worldSpec) (*world, error) {
 			a.Utp.VerifSetConnConfig(shortUtpConfig())
 		}
 	}
+	// Every other responder already knows the askers from elsewhere (a lookup answer, the AddEnr RPC): their table
+	// entries were built from another node object than the one the discv5 session hands to the request handler, and an
+	// entry keeps its object when the node later makes contact itself.
+	for _, rs := range w.resp {
+		if rng.Intn(2) == 0 {
+			continue
+		}
+		for _, self := range []*enode.Node{w.A.Self(), w.X.Self(), w.XD.Self()} {
+			if n, err := enode.New(enode.ValidSchemes, self.Record()); err == nil && rs.n.P.VerifTable().VerifAddFound(n, true) {
+				w.r.Count("askers_known_to_a_responder_from_elsewhere_before_first_contact", 1)
+			}
+		}
+	}
 	w.hub.SetTap(func(d pnode.Datagram, _ []byte) {
 		if !w.rset[d.Src] {
 			return
